@@ -4,6 +4,7 @@ import Driver.C15
 import Driver.C16
 import Driver.Client
 import Driver.C06
+import Driver.Pool
 /-!
 `lvdriver`: reads one case per line (tab separated, first field = operation), replays it
 through the Lean model M and the specification S, and prints one answer per line:
@@ -33,6 +34,7 @@ def dispatch (line : String) : String :=
     | "envcheck" => C16.envcheckOp args
     | "client" => ClientOp.clientOp args
     | "tls" => C06.tlsOp args
+    | "pool" => PoolOp.poolOp args
     | "mailparam" => C04.mailparamOp args
     | "ehlocmd" => C04.ehlocmdOp args
     | "mailstd" => C04.mailstdOp args
